@@ -158,6 +158,7 @@ class Report:
         self.evaluations = 0
         self.nontrivial = set()
         self.violations = []
+        self.all_violations = []
         self.samples = []
         self.known = []
 
@@ -169,6 +170,8 @@ class Report:
             self.samples.append(sample)
 
     def fail(self, check, **kw):
+        # every violation is kept (known findings are filtered by exact input afterwards); only the first 25 new ones are reported
+        self.all_violations.append(dict(check=f"{self.name}: {check}", **kw))
         if len(self.violations) < 25:
             self.violations.append(dict(check=f"{self.name}: {check}", **kw))
 
@@ -982,6 +985,125 @@ def c08(rac, units, tier, seed, known_p=()):
 STANDINS["C08"] = c08
 
 
+SI_PREFIX = {"YOTTA": 24, "ZETTA": 21, "EXA": 18, "PETA": 15, "TERA": 12, "GIGA": 9, "MEGA": 6, "KILO": 3, "HECTO": 2, "DECA": 1, "DECI": -1, "CENTI": -2, "MILLI": -3,
+             "MICRO": -6, "NANO": -9, "PICO": -12, "FEMTO": -15, "ATTO": -18, "ZEPTO": -21, "YOCTO": -24}   # SI brochure, 9th ed., table 7
+
+
+def _vocabulary(repo):
+    import tomllib
+    data = tomllib.load(open(os.path.join(repo, "tools", "gen", "data.toml"), "rb"))
+    names = {}     # spelling -> set of (unit key, bias)
+    for u in data["units"]:
+        key = u["unit"] if u["type"] == "base" else int(u["id"], 16)
+        for n in u["names"]:
+            names.setdefault(n, set()).add((key, u.get("prefix_bias", 0)))
+    prefixes = {}  # spelling -> exponent
+    for p in data["prefixes"]:
+        for n in p["names"]:
+            prefixes[n] = SI_PREFIX[p["prefix"]]
+    return names, prefixes
+
+
+def _readings(word, names, prefixes, depth=0):
+    """all readings of a word as a sequence of [prefix] unit-name pieces -> list of tuples of (unit key, prefix exponent incl. bias)"""
+    if word == "":
+        return [()]
+    if depth > 4:
+        return []
+    out = []
+    for L in range(1, len(word) + 1):
+        head = word[:L]
+        cands = []
+        if head in names:
+            cands += [(k, b) for k, b in names[head]]
+        for pl in range(1, L):
+            if head[:pl] in prefixes and head[pl:] in names:
+                cands += [(k, prefixes[head[:pl]] + b) for k, b in names[head[pl:]]]
+        if cands:
+            for rest in _readings(word[L:], names, prefixes, depth + 1):
+                for c in cands:
+                    out.append((c,) + rest)
+    return out
+
+
+def _aggregate(reading):
+    """(unit, prefix)* -> frozenset of (unit, power, prefix) or None when one unit occurs with two prefixes"""
+    agg = {}
+    for u, p in reading:
+        if u in agg and agg[u][1] != p:
+            return None
+        agg[u] = (agg.get(u, (0, p))[0] + 1, p)
+    return frozenset((u, n, p) for u, (n, p) in agg.items())
+
+
+def _unit_key(u):
+    return u if isinstance(u, str) else int(u)
+
+
+def c05(rac, units, tier, seed):
+    names, prefixes = _vocabulary(rac.repo)
+    rep = Report("C05 generated::unit::parse (logos output) + eval::unit word/operator handling", f"every documented unit name ({len(names)}) alone and with every prefix spelling ({len(prefixes)}) - finite and complete over the vocabulary; unit expressions of <= 4 factors over * blank / ^n (sampled); oracle: the documented names and SI prefix exponents, independent segmentation")
+    rnd = random.Random(seed)
+    words = sorted(names)
+    lexed = rac.ask_many([{"cmd": "lex", "s": w} for w in words], chunk=1000)
+    typeable = [w for w, lx in zip(words, lexed) if len(lx.get("tokens", [])) == 1 and lx["tokens"][0][1] == "WORD"]
+    # (ii) every documented name that can be typed is accepted alone with exactly its meaning
+    ans = rac.ask_many([{"cmd": "compound", "s": w} for w in typeable], chunk=1000)
+    for w, a in zip(typeable, ans):
+        rep.ran(("alone", w), True, dict(word=w) if len(rep.samples) < 3 else None)
+        want = {frozenset([(k, 1, b)]) for k, b in names[w]}
+        got = frozenset((_unit_key(u), p, pre) for u, p, pre in a["ok"]["unit"]) if "ok" in a else None
+        if got not in want:
+            rep.fail("documented unit name not accepted alone with its own meaning", query=w, expected=str(sorted(map(sorted, want), key=str)), actual=json.dumps(a, ensure_ascii=False)[:200], cmd={"cmd": "compound", "s": w}, raw=a)
+    # (i) an accepted prefixed word is one of the valid readings
+    combos = [p + w for w in typeable for p in prefixes]
+    ans = rac.ask_many([{"cmd": "compound", "s": c} for c in combos], chunk=2000)
+    accepted = 0
+    for c, a in zip(combos, ans):
+        if "ok" not in a:
+            rep.ran(("prefixed", c), False)
+            continue
+        accepted += 1
+        rep.ran(("prefixed", c), True, dict(word=c, read_as=a["ok"]["unit"]) if len(rep.samples) < 6 else None)
+        got = frozenset((_unit_key(u), p, pre) for u, p, pre in a["ok"]["unit"])
+        valid = {_aggregate(r) for r in _readings(c, names, prefixes)}
+        if got not in valid:
+            rep.fail("accepted word is not a valid reading as SI prefix + unit name(s)", query=c, expected=str([sorted(v, key=str) for v in valid if v][:4]), actual=json.dumps(a["ok"]["unit"], ensure_ascii=False), cmd={"cmd": "compound", "s": c}, raw=a)
+    # (iii) operators inside a unit expression: juxtaposition / * / blank multiply, `/` inverts everything after it, ^n applies to the unit it follows
+    simple = [w for w in typeable if len(names[w]) == 1 and w.isascii() and len(w) >= 1]
+    pool = [w for w in ["m", "s", "kg", "A", "K", "mol", "cd", "B", "N", "J", "W", "Pa", "Hz", "V", "ft", "mile", "hour", "l", "btu", "acre"] if w in simple]
+    exprs = []
+    for _ in range(600 if tier == "quick" else 8000):
+        n = rnd.randint(1, 4)
+        ws = rnd.sample(pool, n)
+        txt, agg, sign = "", {}, 1
+        for i, w in enumerate(ws):
+            if i:
+                sep = rnd.choice(["*", " ", "/", "* ", "/ ", "/", "*"])   # operators are written without a blank before them (DESIGN 6.0)
+                txt += sep
+                if "/" in sep:
+                    sign = -1
+            pw = rnd.choice([1, 1, 1, 2, 3, -1, -2, 0])
+            txt += w + (f"^{pw}" if pw != 1 or rnd.random() < 0.1 else "")
+            (k, b), = names[w]
+            agg[k] = (agg.get(k, (0, b))[0] + sign * pw, b)
+        want = frozenset((k, n_, b) for k, (n_, b) in agg.items() if n_ != 0)
+        exprs.append((txt, want))
+    exprs += [("m/s/s", frozenset([("Meter", 1, 0), ("Second", -2, 0)])), ("m*m^2", frozenset([("Meter", 3, 0)])), ("m^0", frozenset()), ("m/m", frozenset()), ("m/s*kg", frozenset([("Meter", 1, 0), ("Second", -1, 0), ("KiloGram", -1, 0)])),
+              ("m^2 m", frozenset([("Meter", 3, 0)])), ("m/m^2", frozenset([("Meter", -1, 0)])), ("kg m^2/s^2", frozenset([("KiloGram", 1, 0), ("Meter", 2, 0), ("Second", -2, 0)]))]
+    ans = rac.ask_many([{"cmd": "compound", "s": t} for t, _ in exprs], chunk=2000)
+    for (t, want), a in zip(exprs, ans):
+        rep.ran(("expr", t), True, dict(unit_expression=t) if len(rep.samples) < 9 else None)
+        got = frozenset((_unit_key(u), p, pre) for u, p, pre in a["ok"]["unit"]) if "ok" in a else None
+        if got != want:
+            rep.fail("unit expression: juxtaposition/*/blank multiply, / inverts everything after it, ^n applies to the unit it follows", query=t, expected=str(sorted(want, key=str)), actual=json.dumps(a, ensure_ascii=False)[:200], cmd={"cmd": "compound", "s": t}, raw=a)
+    rep.bound += f"; {len(typeable)} typeable names, {accepted} of {len(combos)} prefixed spellings accepted"
+    return [rep]
+
+
+STANDINS["C05"] = c05
+
+
 def register(prop):
     def deco(fn):
         STANDINS[prop] = fn
@@ -999,6 +1121,8 @@ def known_matches(v, known_p):
     for k in known_p:
         w = k.get("witness", {})
         if q and q == w.get("query"):
+            return k
+        if q and q in (k.get("queries") or ()):
             return k
         fam = k.get("family_regex")
         if fam and q and re.search(fam, q):
@@ -1031,6 +1155,7 @@ def run(prop, tier, seed, repo, known_p):
     violations = []
     suppressed = []
     for r in reps:
+        r.violations = r.all_violations
         for v in r.violations:
             k = known_matches(v, known_p)
             if k is not None:
@@ -1038,6 +1163,7 @@ def run(prop, tier, seed, repo, known_p):
             else:
                 violations.append(v)
     samples = [s for r in reps for s in r.samples][:10]
+    violations = violations[:25]
     return dict(standins=[r.as_dict() for r in reps], evaluations=sum(r.evaluations for r in reps),
                 distinct_nontrivial=sum(len(r.nontrivial) for r in reps), violations=violations, suppressed=suppressed,
                 samples=samples, rule="; ".join(f"{r.name}: {r.bound}" for r in reps), exhaustive=False)
